@@ -107,6 +107,7 @@ type ffSpec struct {
 	AllowedFields []string
 	MustCalls     []string
 	MinSinks      int
+	AllowArith    bool // the value is computed from the source (a 1-based position minus one), not copied
 	Desc          string
 }
 
@@ -174,7 +175,7 @@ func ruleFieldFlow(c *Ctx, r *Report, s ffSpec) {
 		if !anyCall {
 			// a flow whose calls are enumerated is a copy: nothing is spliced onto the value on the way
 			for _, op := range []string{"+", "-", "*", "/", "%"} {
-				if at.Ops[op] {
+				if at.Ops[op] && !s.AllowArith {
 					viol = fmt.Sprintf("%s: %s.%s is computed with `%s` from its source (atoms: %s): the value is no longer the source as written", w.pos(sk.Pos), ownerName(s.Owner), s.Field, op, at)
 				}
 			}
